@@ -331,6 +331,39 @@ def drive_tree(rng, X, H, stream_kind, profile, log):
                     svg.content.append(tn)
                     with SVGWriter.SVGText(xs, Coord.Pt(Coord.Dim(0.5, 'in'), Coord.Dim(0.25, 'in')), 'Courier', 9):
                         xs.characters(t)
+                if rng.random() < 0.7:
+                    # one presentation dict reused by a run of different shape elements (as a legend drawer would): every element must
+                    # come out with exactly its own geometry plus the caller's attributes, and the caller's dict must stay as it was
+                    shared = {'class': S(8), 'stroke': rng.choice(['black', 'red', S(4)])}
+                    before = dict(shared)
+
+                    def dim(v):
+                        return '%.3fin' % v
+                    for _ in range(rng.randrange(2, 6)):
+                        kind = rng.choice(['rect', 'circle', 'line', 'text', 'elipse'])
+                        a, b, c, d = [round(rng.uniform(0, 3), 2) for _ in range(4)]
+                        pt = Coord.Pt(Coord.Dim(a, 'in'), Coord.Dim(b, 'in'))
+                        if kind == 'rect':
+                            geo = {'x': dim(a), 'y': dim(b), 'width': dim(c), 'height': dim(d)}
+                            el = SVGWriter.SVGRect(xs, pt, Coord.Box(Coord.Dim(c, 'in'), Coord.Dim(d, 'in')), shared)
+                        elif kind == 'circle':
+                            geo = {'cx': dim(a), 'cy': dim(b), 'r': dim(c)}
+                            el = SVGWriter.SVGCircle(xs, pt, Coord.Dim(c, 'in'), shared)
+                        elif kind == 'elipse':
+                            geo = {'cx': dim(a), 'cy': dim(b), 'rx': dim(c), 'ry': dim(d)}
+                            el = SVGWriter.SVGElipse(xs, pt, Coord.Dim(c, 'in'), Coord.Dim(d, 'in'), shared)
+                        elif kind == 'line':
+                            geo = {'x1': dim(a), 'y1': dim(b), 'x2': dim(c), 'y2': dim(d)}
+                            el = SVGWriter.SVGLine(xs, pt, Coord.Pt(Coord.Dim(c, 'in'), Coord.Dim(d, 'in')), shared)
+                        else:
+                            geo = {'font-family': 'Courier', 'font-size': '7', 'x': dim(a), 'y': dim(b)}
+                            el = SVGWriter.SVGText(xs, pt, 'Courier', 7, shared)
+                        log.append(('SVG' + kind, sorted(geo)))
+                        svg.content.append(Node(kind, dict(geo, **before)))
+                        with el:
+                            pass
+                    if shared != before:
+                        info['shared_attrs_mutated'] = {'before': before, 'after': dict(shared)}
     except _Stop:
         info['early_exit'] = info['early_exit'] or 'exception'
     roots = [c for c in root_holder.content if isinstance(c, Node)]
@@ -430,6 +463,9 @@ def run_trees(ctx, n):
         r1, r2, errs = parse_both(doc)
         rec.mon('tree_parses')
         wit = {'stream': stream_kind, 'ops': repr(log)[-2500:], 'strings_representable': rep, 'early_exit': info['early_exit']}
+        if info.get('shared_attrs_mutated'):
+            rec.violation('tree_equals_model', 'caller-attrs-mutated', 'an SVG element constructor changed the attribute dict it was given: %r -> %r' % (
+                info['shared_attrs_mutated']['before'], info['shared_attrs_mutated']['after']), dict(wit, **info['shared_attrs_mutated']))
         if errs:
             lim = 'f13' if not rep else 'n'
             if cap[lim] < 12:
